@@ -15,6 +15,12 @@ if [ ! -x bin/upfcheck ] || [ -n "$(find checker -newer bin/upfcheck \( -name '*
 fi
 bin/upfcheck -prop "$PROP" -tier "$TIER" -repo "${UPF_REPO:-/repo}" -verif /verif
 rc=$?
+if [ $rc -ne 0 ] && [ $rc -ne 1 ]; then
+  # the analyser itself died (fatal runtime error, killed): fail closed, the property was not decided
+  echo "checker exited with status $rc" > "evidence/$PROP.checker-crashed"
+  echo "VIOLATION property=$PROP replay=/verif/evidence/$PROP.checker-crashed"
+  rc=1
+fi
 if [ "$TIER" = "thorough" ]; then
   python3 tools/variants.py "$PROP" --jobs 6 --merge "evidence/$PROP.json" | grep -v '^selftest ok'
   # engine fixtures (positive and negative examples of the path / loop engines)
